@@ -8,12 +8,12 @@ import (
 )
 
 type genState struct {
-	r          *vh.RNG
-	w          *world
-	nextID     uint64
-	usedPrice  map[uint64]bool
-	serial     uint64
-	dist       func(string)
+	r         *vh.RNG
+	w         *world
+	nextID    uint64
+	usedPrice map[uint64]bool
+	serial    uint64
+	dist      func(string)
 }
 
 func genConfig(r *vh.RNG) (poolCfg, [][2]uint64) {
